@@ -45,7 +45,9 @@ LEVELS = {
     'Mappingkey': ('Mapping[{}, int]', 'mapkey', ['SpyDict', 'PyMapping']),
     'Counter': ('Counter[{}]', 'mapkey', ['SpyCounter']),
 }
-LEAVES = {'int': (lambda i: i, lambda i: 's%d' % i), 'str': (lambda i: 's%d' % i, lambda i: i)}
+LEAVES = {'int': (lambda i: i, lambda i: 's%d' % i), 'str': (lambda i: 's%d' % i, lambda i: i),
+          # ignorable leaves (nothing violates them): dict[str, Any], Mapping[object, int] ... still have a checked side
+          'Any': (lambda i: i, None), 'object': (lambda i: 's%d' % i, None)}
 READ_BOUND = {'seq': 1, 'hashed': 1, 'reit': 1, 'quasi': 1, 'mapval': 2, 'mapkey': 2}
 NONCOLL = [
     ('Iterable[int]', 'PyIterable'), ('Iterable[int]', 'PyIterator'), ('Iterable[int]', 'generator'),
@@ -64,7 +66,7 @@ def gen_shape(rng):
         pool = [n for n, (_, kind, _) in LEVELS.items()
                 if last or kind not in ('hashed', 'mapkey')]   # hashed levels hold leaves only
         names.append(rng.choice(pool))
-    leaf = rng.choice(list(LEAVES))
+    leaf = rng.choice(['int', 'int', 'str', 'str', 'Any', 'object'])
     wrap = rng.choice((None, None, 'optional', 'annotated', 'tuple'))
     return names, leaf, wrap
 
@@ -226,6 +228,8 @@ def main():
         scaled = rng.randrange(len(names))
         kinds = [LEVELS[n][1] for n in names]
         variant = rng.choice(('ok', 'allbad', 'onebad', 'sibling-bad'))
+        if LEAVES[leaf][1] is None and variant in ('allbad', 'onebad'):
+            variant = 'sibling-bad'          # an ignorable leaf has no violating values: the culprit is a sibling
         if variant == 'sibling-bad' and wrap != 'tuple':
             # a conforming container next to the real culprit: tuple[<shape>, int] with (container, 'bad')
             wrap = 'tuple'
